@@ -3,6 +3,7 @@ use crate::case::{CaseOut, Ctx, Tier};
 use crate::common::*;
 use crate::drive::*;
 use crate::json::J;
+use crate::model::{build_universe, collect_phs, Sem};
 use crate::props::c05::slg_delayed_table;
 use crate::props::workload::workload;
 use crate::rng::Rng;
@@ -13,6 +14,30 @@ pub fn cases(t: Tier) -> u64 {
     match t {
         Tier::Quick => 400,
         Tier::Thorough => 6000,
+    }
+}
+
+/// One of the two answers is `Ambiguous; no inference guidance`, the other is definite.
+fn truncation_pair(a: &Option<chalk_solve::Solution<I>>, b: &Option<chalk_solve::Solution<I>>) -> bool {
+    let unk = |s: &Option<chalk_solve::Solution<I>>| matches!(s, Some(chalk_solve::Solution::Ambig(chalk_solve::Guidance::Unknown)));
+    let def = |s: &Option<chalk_solve::Solution<I>>| matches!(s, None | Some(chalk_solve::Solution::Unique(_)));
+    (unk(a) && def(b)) || (unk(b) && def(a))
+}
+
+/// F34's root-cause condition: the reference derivation of the goal leaves the model's size bound, i.e. the program makes
+/// types grow along the derivation (polymorphic recursion through fields or where-clauses), which is where the solver's
+/// `max_size` truncation cuts in.
+fn derivation_grows(w: &crate::props::workload::Work, gi: usize) -> bool {
+    match &w.goals[gi].2 {
+        Some(g) => {
+            let mut phs = vec![];
+            collect_phs(g, &mut phs);
+            let uni = build_universe(&w.prog, &phs, 2);
+            let mut sem = Sem::new(&w.prog, 12);
+            let _ = sem.eval(&uni, &mut vec![], g, &Default::default());
+            !sem.last_clean
+        }
+        None => false,
     }
 }
 
@@ -75,7 +100,7 @@ pub fn run(ctx: &Ctx, out: &mut CaseOut) {
                     let db = FaultDb::new(&*l.program, solver_name(&choice));
                     db.budget.set(300_000);
                     let is_slg = matches!(choice, SolverChoice::SLG { .. });
-                    let delayed = if is_slg { slg_delayed_table(&mut slg_solver, &p.goal) } else { false };
+                    let delayed = if is_slg { crate::common::slg_goal_table_stale(&mut slg_solver, &p.goal) } else { false };
                     let o = if is_slg { solve(&mut slg_solver, &db, &p.goal) } else { solve(&mut *other, &db, &p.goal) };
                     let delayed = delayed || (is_slg && slg_delayed_table(&mut slg_solver, &p.goal));
                     out.evals += 1;
@@ -86,6 +111,11 @@ pub fn run(ctx: &Ctx, out: &mut CaseOut) {
                                 let ambig = |s: &Option<chalk_solve::Solution<I>>| s.as_ref().map_or(false, |s| s.is_ambig());
                                 let sig = if delayed && a.is_none() && f.is_some() {
                                     Some("slg:stale-delayed-answer-table")
+                                } else if is_slg && f.is_none() && a.is_some() && fresh_slg_stale(&l, &p.goal) {
+                                    // it is the fresh solve that lost the answer (F11 within one search)
+                                    Some("slg:stale-delayed-answer-table")
+                                } else if !is_slg && truncation_pair(&a, f) && derivation_grows(&w, gi) {
+                                    Some("recursive:size-truncation-depends-on-cache")
                                 } else if is_slg && ((trivial(&a) && ambig(f)) || (trivial(f) && ambig(&a))) {
                                     // F12: warm sub-tables change the order in which answers arrive
                                     Some("slg:trivial-answer-green-cut-order")
